@@ -135,7 +135,7 @@ _MODULES = {
     "functools": {"reduce": functools.reduce, "partial": functools.partial},
     "operator": {k: getattr(operator, k) for k in (
         "or_", "and_", "xor", "ior", "iand", "ixor", "add", "iadd", "sub", "mul", "lshift", "rshift", "ilshift", "irshift", "invert", "inv", "not_",
-        "eq", "ne", "lt", "le", "gt", "ge", "getitem", "itemgetter", "neg", "pos", "floordiv", "mod", "truth", "contains", "index")},
+        "eq", "ne", "lt", "le", "gt", "ge", "getitem", "setitem", "itemgetter", "neg", "pos", "floordiv", "mod", "truth", "contains", "index")},
     "itertools": {k: getattr(itertools, k) for k in ("chain", "product", "accumulate", "repeat", "islice", "combinations", "permutations", "starmap",
                                                      "zip_longest")},
     "copy": {"copy": _copy.copy, "deepcopy": _copy.deepcopy},
@@ -426,9 +426,21 @@ class Folder:
             else:
                 loc[target.id] = v
         elif isinstance(target, (ast.Tuple, ast.List)):
-            if any(isinstance(t, ast.Starred) for t in target.elts):
-                raise Unsupported("fold: starred assignment target")
             vals = list(self._iter(v, target))
+            stars = [i for i, t in enumerate(target.elts) if isinstance(t, ast.Starred)]
+            if stars:
+                # a, *rest, z = vals: the starred name takes the list of what the others leave
+                i, after = stars[0], len(target.elts) - stars[0] - 1
+                if len(stars) > 1:
+                    raise Unsupported("fold: two starred assignment targets")
+                if len(vals) < len(target.elts) - 1:
+                    raise FoldRaise("ValueError: not enough values to unpack", target)
+                for t, x in zip(target.elts[:i], vals[:i]):
+                    self._store(t, x, frames)
+                self._store(target.elts[i].value, vals[i:len(vals) - after], frames)
+                for t, x in zip(target.elts[i + 1:], vals[len(vals) - after:]):
+                    self._store(t, x, frames)
+                return
             if len(vals) != len(target.elts):
                 raise FoldRaise("ValueError: unpacking", target)
             for t, x in zip(target.elts, vals):
